@@ -535,7 +535,47 @@ def unit_bounded_after_update(U):
     U.bounded_result("C06.bounded.after_update", "region / limit / seqids after update() on the same object == the statement on the updated contents", "3 warm-ups x 3 intervals x 4 entry points", cases, fails)
 
 
-UNITS = [("schema", unit_schema), ("bounded.after_update", unit_bounded_after_update), ("bounded.debug_logging", unit_bounded_logging), ("limit", unit_limit), ("region", unit_region), ("sqlmodel", unit_sqlmodel_validation), ("bounded", unit_bounded), ("bounded.straddle", unit_bounded_straddle)]
+def unit_bounded_deferred(U):
+    """Bounded: what a region() / limit= call yields is fixed by ITS arguments, whenever the returned iterator is consumed:
+    iterators obtained first and consumed later, consumed in lock-step, or consumed after other queries ran on the same
+    FeatureDB object, all give the statement's set"""
+    import gffutils.feature as F_
+    fails, cases = [], 0
+    mk = lambda i, sq, a, b, t="exon": F_.Feature(seqid=sq, source="s", featuretype=t, start=a, end=b, strand="+", attributes={"ID": [i]})
+    feats = [mk("a1", "chr1", 10, 20), mk("a2", "chr1", 100, 200), mk("a3", "chr1", 150, 400, "gene"), mk("b1", "chr2", 10, 20), mk("b2", "chr2", 500, 600, "gene")]
+    db = gffutils.create_db(feats, ":memory:")
+    queries = [("chr1", 1, 50), ("chr1", 120, 160), ("chr2", 1, 1000), ("chr1", 1000, 2000), ("chr2", 15, 15)]
+    spec = lambda q: sorted(f.attributes["ID"][0] for f in feats if f.seqid == q[0] and f.start <= q[2] and f.end >= q[1])
+    entries = (("region(tuple)", lambda q: db.region(q)), ("region(string)", lambda q: db.region("%s:%d-%d" % q)), ("region(kwargs)", lambda q: db.region(seqid=q[0], start=q[1], end=q[2])),
+               ("all_features(limit)", lambda q: db.all_features(limit=q)), ("features_of_type(limit)", lambda q: db.features_of_type(("exon", "gene"), limit=q)))
+    for name, fn in entries:
+        cases += 1
+        its = [fn(q) for q in queries]                       # all obtained before any is consumed
+        got = [sorted(f.id for f in it) for it in its]
+        if got != [spec(q) for q in queries]:
+            fails.append({"case": {"call": name, "history": "all iterators obtained first, consumed afterwards", "intervals": queries}, "expected": [spec(q) for q in queries], "observed": got})
+        cases += 1
+        i1, i2 = fn(queries[1]), fn(queries[2])              # lock-step
+        g1, g2 = [], []
+        for x, y in itertools.zip_longest(i1, i2):
+            if x is not None:
+                g1.append(x.id)
+            if y is not None:
+                g2.append(y.id)
+        if [sorted(g1), sorted(g2)] != [spec(queries[1]), spec(queries[2])]:
+            fails.append({"case": {"call": name, "history": "two iterators consumed in lock-step", "intervals": [queries[1], queries[2]]}, "expected": [spec(queries[1]), spec(queries[2])], "observed": [sorted(g1), sorted(g2)]})
+        for between, run in (("children()", lambda: list(db.children("a3"))), ("all_features()", lambda: list(db.all_features())), ("count_features_of_type()", lambda: db.count_features_of_type("exon")),
+                             ("db[key]", lambda: db["b1"]), ("another region()", lambda: list(db.region(("chr2", 1, 1000))))):
+            cases += 1
+            hits = fn(queries[0])
+            run()
+            got = sorted(f.id for f in hits)
+            if got != spec(queries[0]):
+                fails.append({"case": {"call": name, "history": "obtained, then %s on the same object, then consumed" % between, "interval": queries[0]}, "expected": spec(queries[0]), "observed": got})
+    U.bounded_result("C06.bounded.deferred_consumption", "a region / limit iterator yields its own call's set whenever it is consumed", "5 entry points x {obtained first, lock-step, 5 intervening queries}", cases, fails)
+
+
+UNITS = [("bounded.deferred", unit_bounded_deferred), ("schema", unit_schema), ("bounded.after_update", unit_bounded_after_update), ("bounded.debug_logging", unit_bounded_logging), ("limit", unit_limit), ("region", unit_region), ("sqlmodel", unit_sqlmodel_validation), ("bounded", unit_bounded), ("bounded.straddle", unit_bounded_straddle)]
 
 
 def replay_file(doc):
